@@ -55,6 +55,12 @@ def check_case(ctx, case):
 def run_shard(ctx, shard):
     rng = rng_for(ctx.seed, ID, shard['name'])
     circles = ctx.extra['circles']
+    if shard.get('force') == 'bundled':
+        for name, rows in gen.bundled_whole():
+            for (k, n) in [(1, 1), (7, 3), (399, 0), (0, 199), (400, 200), (rng.randint(0, 400), rng.randint(0, 200))]:
+                ctx.run_case({'rows': rows, 'k': k, 'n': n, 'kind': 'bundled_whole'})
+        ctx.sample({'bundled_whole': [n for n, _ in gen.bundled_whole()]})
+        return
     for i in range(shard['n']):
         if shard.get('force') == 'diagonal':
             ln = rng.choice([9, 10, 12, 15, 17, 20, 24, 31, 33, 47, 60])
@@ -84,6 +90,7 @@ def execute(run):
         shards = [{'name': 'mix-%d' % i, 'n': 6000} for i in range(32)]
         shards += [{'name': 'diag-%d' % i, 'n': 600, 'force': 'diagonal'} for i in range(8)]
         shards += [{'name': 'circ-%d' % i, 'n': 800, 'force': 'circle'} for i in range(8)]
+    shards.insert(0, {'name': 'bundled', 'n': 0, 'force': 'bundled'})
     run.run_shards(binary, shards, extra=extra)
 
 
